@@ -318,27 +318,46 @@ def r02_6(chk, sg, so, groups, fidx):
     chk.saw(SG, q)
     st = [e for e in iv.events if e.kind == "store" and e.target.key() == "self.centrosymmetric"]
     prop = sg.funcs.get("SpaceGroup.centrosymmetric")
+    def flag_on_row(t, rowflag, codes):
+        """Truth value of the flag expression on one table row: the table's column, 'some rotation is -I' (= the column, T02), membership
+        of the inversion at the origin, and and/or/not/bool of those."""
+        a = t.as_atom()
+        if a is None:
+            cv = t.const_value()
+            if cv is not None:
+                return bool(cv)
+            raise AnalysisError(f"SpaceGroup.centrosymmetric: unrecognised definition {str(t)[:120]}")
+        if a[0] == "const":
+            return a[1] in ("True", True)
+        if a[0] == "attr" and a[2] == "centrosymmetric" and "self" not in a[1].key():
+            return bool(rowflag)
+        if a[0] in ("and", "or"):
+            vals = [flag_on_row(x, rowflag, codes) for x in a[1]]
+            return all(vals) if a[0] == "and" else any(vals)
+        if a[0] == "not":
+            return not flag_on_row(a[1], rowflag, codes)
+        if a[0] == "call" and call_name(a) == "bool" and len(a[2]) == 1:
+            return flag_on_row(a[2][0], rowflag, codes)
+        if a[0] in ("in", "notin") and a[2].key() == "self.symmetry_operations" and ("identity().inverted()" in a[1].key() or str(M.INVERSION) in a[1].key()):
+            return (M.INVERSION in codes) == (a[0] == "in")
+        if a[0] == "call" and call_name(a) == "any" and "rotation" in t.key() and ("eye(3)" in t.key() or "identity(3)" in t.key()):
+            return bool(rowflag)             # some operation has rotation -I: the definition (the table's column agrees, T02)
+        raise AnalysisError(f"SpaceGroup.centrosymmetric: unrecognised definition {str(t)[:120]}")
+
     if st:
-        chk.ob("R02.6", SG, q, "the flag is copied from the selected table row", all(e.value.key().endswith(".centrosymmetric") and
-               e.value.key().startswith("$sgdata") or e.value.key() == "sgdata.centrosymmetric" or ".centrosymmetric" in e.value.key() for e in st),
-               node=st[0].node, fingerprint="flag-source", found=[str(e.value) for e in st])
+        terms, site, node = [e.value for e in st], q, st[0].node
     elif prop is not None:
         pv = sg.ev("SpaceGroup.centrosymmetric")
         chk.saw(SG, "SpaceGroup.centrosymmetric")
-        r = pv.returns[-1].value
-        ra = r.as_atom()
-        origin_only = bool(ra and ra[0] == "in" and ra[2].key() == "self.symmetry_operations" and
-                           ("identity().inverted()" in ra[1].key() or str(M.INVERSION) in ra[1].key()))
-        any_minus_I = "rotation" in r.key() and ("any(" in r.key())
-        if not origin_only and not any_minus_I:
-            raise AnalysisError(f"SpaceGroup.centrosymmetric: unrecognised definition {str(r)[:120]}")
-        bad = [rid for rid, (row, ops, codes) in groups.items() if row[fidx["centrosymmetric"]] and M.INVERSION not in codes]
-        chk.ob("R02.6", SG, "SpaceGroup.centrosymmetric", "the flag agrees with the operations: true exactly when some operation has rotation -I "
-               "(an inversion centre need not be at the origin)", any_minus_I or not bad, node=prop, fingerprint="flag-source",
-               expected="any(rotation == -I) or the table's flag",
-               found=f"membership of (-I, 0) only: false for {len(bad)} centrosymmetric settings whose centre is off the origin ({', '.join(bad[:6])}...)")
+        terms, site, node = [pv.returns[-1].value], "SpaceGroup.centrosymmetric", prop
     else:
         raise AnalysisError("SpaceGroup.centrosymmetric is neither stored in __init__ nor a property")
+    for t in terms:
+        bad = [rid for rid, (row, ops, codes) in groups.items() if flag_on_row(t, row[fidx["centrosymmetric"]], codes) != bool(row[fidx["centrosymmetric"]])]
+        chk.ob("R02.6", SG, site, "the flag agrees with the operations of every tabulated setting: true exactly when some operation has rotation -I "
+               "(an inversion centre need not be at the origin)", not bad, node=node, fingerprint="flag-source",
+               expected="the table's flag, or any(rotation == -I)",
+               found=f"{str(t)[:100]}: wrong for {len(bad)} settings whose inversion centre is off the origin ({', '.join(bad[:6])}...)" if bad else str(t)[:100])
     # (b) identity insertion in expanded_symmetry_list
     xv = so.ev("expanded_symmetry_list")
     red = xv.param_names[0]
